@@ -237,7 +237,7 @@ class PureWaiters:
         m.clear()
         self.pending += 1
 
-    def register(self, req, beh):
+    def register(self, req, beh, mutate=False):
         self.wid += 1
         self.wait.append((dict(req), beh, self.wid))
         self.pending += 1
@@ -306,7 +306,7 @@ class RealWaiters:
         if self.res:
             self.res[i % len(self.res)].release()
 
-    def register(self, req, beh):
+    def register(self, req, beh, mutate=False):
         self.wid += 1
         wid = self.wid
         mine = dict(req)
@@ -348,6 +348,11 @@ class RealWaiters:
             finally:
                 self.depth -= 1
         self.rm.reserve_resources_with_callback(mine, cb)
+        if mutate:
+            # the caller re-uses its dictionary: what was registered is the request as it was at registration
+            for n in list(mine):
+                mine[n] += 4
+            mine['c'] = mine.get('c', 0) + 9
 
     consume_only_so_far = True
 
@@ -439,7 +444,7 @@ def pools_machine(cap):
 
         @precondition(lambda self: bool(self.p.res))
         @rule(i=st.integers(0, 7), what=st.one_of(st.none(), st.dictionaries(names, st.sampled_from([-1, 0, 1, 2, 5]),
-                                                                             min_size=1, max_size=2)))
+                                                                             min_size=0, max_size=2)))
         def release_anything(self, i, what):
             self.do(['release', i, what])
 
